@@ -718,7 +718,7 @@ fn run_gated(
         loop {
             let predicted = if diverged { None } else { Some(g.states[st].next.clone()) };
             let idle_expected = predicted.as_ref().map(|c| c.c == "idle").unwrap_or(false);
-            let arrival = run.wait_arrival(if idle_expected || diverged { Duration::from_millis(if diverged { 30 } else { 3 }) } else { Duration::from_millis(1500) });
+            let arrival = run.wait_arrival(if idle_expected || diverged { Duration::from_millis(if diverged { 30 } else { 8 }) } else { Duration::from_millis(4000) });
             match (arrival, predicted) {
                 (None, Some(p)) if p.c == "idle" => break,
                 (None, None) => break,
@@ -766,7 +766,7 @@ fn run_gated(
         let want = if diverged { None } else { Some(g.states[st].dur) };
         let mut d = run.log.durable_index();
         while let Some(w) = want {
-            if d == w || t0.elapsed() > Duration::from_millis(500) {
+            if d == w || t0.elapsed() > Duration::from_millis(3000) {
                 break;
             }
             std::thread::sleep(Duration::from_micros(200));
